@@ -1054,8 +1054,25 @@ func (bs *blockState) sliceOp(x *ssa.Slice) {
 	if hasHi {
 		hi = bs.tm(fr.value(x.High), "Int", pos)
 	}
+	var max3 *Term
 	if x.Max != nil {
-		ex.unsup(pos, "3-index slice")
+		// x[lo:hi:max] has the value of x[lo:hi] (only its capacity differs); Go panics unless hi <= max <= cap(x). cap(x) is not
+		// modelled, so the (sufficient) condition max <= len(x) is required, like hi <= len(x) for two-index slices
+		m := bs.tm(fr.value(x.Max), "Int", pos)
+		max3 = &m
+	}
+	if max3 != nil {
+		if !hasHi {
+			ex.unsup(pos, "3-index slice without a high bound")
+		} else if t, ok := base.(Term); ok {
+			if l, err := lenTerm(t); err == nil {
+				bs.safe("slice3", and(Term{"(<= " + hi.S + " " + max3.S + ")", "Bool"}, Term{"(<= " + max3.S + " " + l.S + ")", "Bool"}), pos)
+			} else {
+				ex.unsup(pos, "3-index slice of %s", t.Sort)
+			}
+		} else {
+			ex.unsup(pos, "3-index slice of a local buffer")
+		}
 	}
 	switch b := base.(type) {
 	case *Ptr:
